@@ -21,7 +21,7 @@ Nodes (tuples):
   ("if", [(cond_name, value, body)], else_body)   if cond_name == value then ... elif ... else ...
   ("logvar", var)                       append(log, var)
 Exit kinds (value of `kind`/`kind2`): 0 error ev, 1 undefined name, 2 division by zero,
-3 return rv, 4 break, 5 continue.
+3 return rv, 4 break, 5 continue, 6 a runtime error that originates from a host-level exception.
 """
 
 
@@ -67,9 +67,13 @@ def render1(n, ind):
     if t == "exit":
         p = n[1]
         body = ("if k == 0 then error e elif k == 1 then undefined_name_xyz elif k == 2 then 1 / 0 "
-                "elif k == 3 then return rv elif k == 4 then break else continue")
+                "elif k == 3 then return rv elif k == 4 then break elif k == 5 then continue")
+        # kind 6 fails with a host-level exception DIRECTLY in the enclosing block (no helper block in between)
+        host = "split('a,b', '(')"
         return ("%sif sel == %d then do def k = kind; def e = ev; %s end;\n"
-                "%sif sel2 == %d then do def k = kind2; def e = ev2; %s end" % (ind, p, body, ind, p, body.replace("return rv", "return rv2")))
+                "%sif sel2 == %d then do def k = kind2; def e = ev2; %s end;\n"
+                "%sif sel == %d and kind == 6 then %s;\n%sif sel2 == %d and kind2 == 6 then %s"
+                % (ind, p, body, ind, p, body.replace("return rv", "return rv2"), ind, p, host, ind, p, host))
     if t == "block":
         _, body, catches, fin = n
         s = "%sdo\n%s" % (ind, render(body, ind + "  "))
@@ -148,6 +152,8 @@ class Ref:
             raise Ret(self.v["rv"] if rv is None else rv)
         if k == 4:
             raise Brk()
+        if k == 6:
+            raise Err(self.error)      # a runtime 'ERROR' that starts life as a host exception (bad regex)
         raise Cnt()
 
     def run(self, nodes):
@@ -168,10 +174,15 @@ class Ref:
         if t == "lit":
             return self.mk(n[1])
         if t == "exit":
-            if v["sel"] == n[1]:
+            # same order as the rendered statements: kinds 0..5 of both fault points, then kind 6 of both
+            if v["sel"] == n[1] and v["kind"] != 6:
                 self.fire(v["kind"], v["ev"])
-            if v["sel2"] == n[1]:
+            if v["sel2"] == n[1] and v["kind2"] != 6:
                 self.fire(v["kind2"], v["ev2"], v.get("rv2"))
+            if v["sel"] == n[1] and v["kind"] == 6:
+                self.fire(6, None)
+            if v["sel2"] == n[1] and v["kind2"] == 6:
+                self.fire(6, None)
             return None
         if t == "block":
             _, body, catches, fin = n
